@@ -24,6 +24,12 @@ CHECKS = {
         "Same implementation on both sides: detects schedule-dependent behaviour only. The verif-hooks probe classifies interruption points (inside the program, pending error) and detects the forced newline; comparisons use public events.",
         "6 C13",
     ),
+    "C14": (
+        "proptest-generated link-clean programs (every referencing form, multi-byte text before references, references inside strings/remarks, line 0 and 65529) x RENUM argument triples, against a reference renumberer on the harness AST; plus before/after behaviour under TRON up to the line-number map",
+        "Exploration with a reference model: the listing after RENUM must equal, character for character, the canonical text of the tree renumbered by the harness (which implies that every operand was rewritten and nothing else moved), or be unchanged when an error is shown; infeasible renumberings must be refused; half of the cases also compare the traced run before and after.",
+        "Trusted base: the canonical printer (guarded: generated text parses to the generator's tree and lists verbatim) and the 40-line reference renumberer. A refusal of a feasible renumbering is allowed by the statement.",
+        "6 C14",
+    ),
     "C15": (
         "bounded-exhaustive enumeration of edit/LIST/DELETE histories over small line-number universes + proptest random long histories, against a BTreeMap reference model compared after every step",
         "Exploration with a reference model. Small scope is complete: every history of up to 3 operations (4 in thorough) over {0,1,10,65528,65529} and {0,10,65529}, every range form including inverted ones and numbers above 65529; after each operation the whole listing, every ranged LIST and Listing::line are compared with the model. Random histories of up to 60 operations cover the full number range.",
